@@ -16,17 +16,33 @@ from . import common, lib_db, c06, c15_guardmap
 from .common import parallel_map
 
 RULE = ("cases = histories of 4-20 commands of the C06 generator plus remove (recursive or not) over 3 products x 3 "
-        "versions x 2 flavors x 2 stacks x 3 tags, each mutating command preceded by the same command run with "
-        "noaction=True in a fresh process (new declaration, redeclaration, conflicting redeclaration, tag move, tag "
-        "only, table=none, force, undeclare with/without version, tag only, version-and-tag, unassignTag, remove); "
-        "a history is non-trivial when at least 3 of its real commands change the stacks, so that the dry runs are "
-        "taken from populated states; distinct = distinct history digests")
+        "versions x 2 flavors x 2 stacks (stack, stack2) x 3 tags, each mutating command preceded by the same command run "
+        "with noaction=True in a fresh process (new declaration, redeclaration, conflicting redeclaration, tag move, tag "
+        "only, table: the directory's / none / a file kept elsewhere / a stream (declare -M) / the interned one by its "
+        "path, external files, force, undeclare with/without version, tag only, version-and-tag, unassignTag, remove, "
+        "also of products whose installation directory was deleted by hand); a history is non-trivial when at least 3 "
+        "of its real commands change the stacks, so that the dry runs are taken from populated states; distinct = "
+        "distinct history digests")
 TRUSTED = ["fork-per-command runner and tree hash of harness/lib_db.py (every file and directory name under each "
-           "stack, cache files `*.pickleDB*` excluded)",
-           "the AST walk of harness/c15_guardmap.py recognises write calls by the name of the callee"]
-ASSUMPTIONS = ["interned table files (tablefile given as a stream) are not generated: their writes are covered by the guard "
-               "map only; the temporary file of an interned table lives outside the stacks",
+           "stack, whatever it is called; only cache files `*.pickleDB*` are excluded)",
+           "the AST walk of harness/c15_guardmap.py recognises write calls by the name of the callee; for scratch files "
+           "(mkstemp / mkdtemp / NamedTemporaryFile) the directory argument is part of the recorded site"]
+ASSUMPTIONS = ["every command - dry runs included - ends abnormally: the forked child leaves with os._exit, so atexit "
+               "handlers do not run and whatever a dry run has put under a stack is still there when the tree is hashed; "
+               "the scratch directory of the children (tempfile.tempdir) lies outside the stacks",
                "remove: table files declare no dependencies, so the recursive collection is the product itself"]
+
+# the functions the model mirrors (harness/fingerprint.py): a changed fingerprint makes the quick tier run with the thorough case budget
+MIRRORS = [
+    ('python/eups/Eups.py', 'Eups.declare'),
+    ('python/eups/Eups.py', 'Eups.undeclare'),
+    ('python/eups/Eups.py', 'Eups.unassignTag'),
+    ('python/eups/Eups.py', 'Eups.assignTag'),
+    ('python/eups/Eups.py', 'Eups.remove'),
+    ('python/eups/Eups.py', 'Eups._remove'),
+    ('python/eups/utils.py', 'copyfile'),
+    ('python/eups/utils.py', 'isSubpath'),
+]
 
 WORKERS = c06.WORKERS
 DRYABLE = ("declare", "undeclare", "unassignTag", "remove")
